@@ -23,7 +23,7 @@ def cmd_check(pid, args):
     workers = int(os.environ.get("VERIF_WORKERS", "0")) or min(16, os.cpu_count() or 1)
     mod = core.load_prop(pid)
     nruns = args.runs or mod.NRUNS[tier]
-    budget = float(os.environ.get("VERIF_BUDGET_S", "0")) or {"quick": 240.0, "thorough": 3000.0}[tier]
+    budget = float(os.environ.get("VERIF_BUDGET_S", "0")) or {"quick": 600.0, "thorough": 7200.0}[tier]
     timeout = getattr(mod, "RUN_TIMEOUT", 60.0)
     t0 = time.time()
     print("mofsim %s tier=%s VERIF_SEED=%d runs=%d workers=%d" % (pid, tier, verif_seed, nruns, workers), flush=True)
@@ -95,6 +95,7 @@ def cmd_check(pid, args):
     sc = cov["runs_by_status"]
     print("runs=%d %s distinct_nontrivial=%d wall=%.1fs (%d runs/h)%s" % (len(results), sc, cov["distinct_nontrivial"], wall,
           cov["runs_per_hour"], " STOPPED-EARLY: %s" % stopped_early if stopped_early else ""))
+    print("slowest run: %s" % (cov.get("slowest_run"),))
     print("reach: " + ", ".join("%s=%d" % kv for kv in sorted(counters.items())))
     return exit_code
 
